@@ -535,6 +535,7 @@ package quickfix
 //@   atcall SetField @new fresh(reply.Header.tagLookup) && fresh(reply.Body.tagLookup) && fresh(reply.Trailer.tagLookup) && fresh(reply)
 //@   atcall SetField @refseq arg1 == 45 ==> fhas(msg.Header.FieldMap, 34) && isint(fval(msg.Header.FieldMap, 34)) && *unbox(arg2, *FIXInt) == fint(msg.Header.FieldMap, 34)
 //@   atcall sendInReplyTo @inreply arg2 == msg
+//@   atcall OnEventf @refset fhas(msg.Header.FieldMap, 34) && isint(fval(msg.Header.FieldMap, 34)) ==> fhas(reply.Body.FieldMap, 45)
 //@   ensures @number result == nil && !s.sentReset ==> s.store.#S == wrap64(old(s.store.#S) + 1) && s.store.#T == old(s.store.#T)
 //@   ensures @state s.State == old(s.State) && s.messageOut == old(s.messageOut) && sessfull(s)
 
